@@ -71,6 +71,8 @@ struct C12 : Prop {
 		J se;
 		if (normal) {
 			w = cfg::gen_world(r, thorough ? 4 : 3, 3);
+			// (Secure-ACK boards are frequent: their reports make the receiver transmit on its own while the application reads)
+			for (auto &b : w.boards) { bool has = false; for (auto &f : b.features) if (f.first == 0x03) has = true; if (!has && r.chance(500)) b.features.push_back({0x03, (uint8_t) r.range(1, 200)}); }
 			cfg::install(plan, w, r);
 			se = cfg::normal_session(0, 0);
 			for (auto &b : w.boards) if (b.present) addrs.push_back(b.addr);
@@ -146,6 +148,8 @@ struct C12 : Prop {
 					// does not name, empty / repeated address lists ...): out-of-range field values in otherwise perfectly valid traffic
 					J ev1 = api::uplink_event(r, w, 0);
 					ref::Msg m; m.addr = j_bytes(ev1["node"]); m.seq = r.chance(500) ? 0 : r.byte(); m.type = (uint8_t) ev1.geti("type"); m.data = j_bytes(ev1["data"]);
+					if (r.chance(200)) { std::vector<const cfg::Board *> sa; for (auto &b : w.boards) if (b.present && b.secack()) sa.push_back(&b);
+						if (!sa.empty()) { m.addr = sa[r.below(sa.size())]->addr; m.type = MSG_BM_POSITION; m.data = {r.byte(), r.byte(), r.byte(), r.byte(), r.byte()}; } }
 					bytes = ref::frame_msgs({m}); adv = true; inj = "valid-message-unusual-field-values";
 				} else if (x < 42) {
 					// oversized CRC-valid frame
